@@ -2,20 +2,21 @@ package main
 
 import (
 	"fmt"
-	"strings"
+	"time"
+
+	"github.com/jf-tech/omniparser/customfuncs"
 )
 
 func init() {
 	cmds["probe"] = func(args []string) int {
-		for _, f := range c10Formats() {
-			if f.Name != args[0] {
-				continue
-			}
-			sch, err, p := newSchema([]byte(f.Schema))
-			fmt.Println(err, p)
-			o := runTranscript(sch, strings.NewReader(f.Wrap(f.OK[:1])), RunOpts{MaxReads: 5})
-			fmt.Printf("%+v\n", o)
+		for _, z := range []string{"America/New_York", "Asia/Kathmandu", "Pacific/Kiritimati", "Etc/GMT+12", "Australia/Lord_Howe"} {
+			_, err := time.LoadLocation(z)
+			fmt.Println(z, err)
 		}
+		fmt.Println(customfuncs.DateTimeToEpoch(nil, "9999-12-31T23:59:59Z", "", "MILLISECOND"))
+		fmt.Println(customfuncs.DateTimeToEpoch(nil, "9999-12-31T23:59:59Z", "", "SECOND"))
+		fmt.Println(customfuncs.EpochToDateTimeRFC3339(nil, "253402300799000", "MILLISECOND"))
+		fmt.Println(customfuncs.DateTimeToRFC3339(nil, "0001-01-01T00:00:00", "America/New_York", "Asia/Tokyo"))
 		return 0
 	}
 }
